@@ -62,6 +62,8 @@ fn main() {
 struct Tier {
     runs: u64,
     sweep8_all_pairs: bool,
+    /// every range size r = 1..=2^16 at 16 bits (low = MIN), complete word space each
+    sweep16_all_sizes: bool,
     sweep16: u64,
     sweep24: u64,
     sweep32: u64,
@@ -70,9 +72,9 @@ struct Tier {
 
 fn tier(name: &str) -> Tier {
     match name {
-        "thorough" => Tier { runs: 6_000_000, sweep8_all_pairs: true, sweep16: 60_000, sweep24: 320, sweep32: 10, determinism_runs: 2000 },
-        "smoke" => Tier { runs: 4_000, sweep8_all_pairs: false, sweep16: 40, sweep24: 2, sweep32: 0, determinism_runs: 32 },
-        _ => Tier { runs: 150_000, sweep8_all_pairs: true, sweep16: 2_000, sweep24: 16, sweep32: 0, determinism_runs: 64 },
+        "thorough" => Tier { runs: 6_000_000, sweep8_all_pairs: true, sweep16_all_sizes: true, sweep16: 60_000, sweep24: 320, sweep32: 10, determinism_runs: 2000 },
+        "smoke" => Tier { runs: 4_000, sweep8_all_pairs: false, sweep16_all_sizes: false, sweep16: 40, sweep24: 2, sweep32: 0, determinism_runs: 32 },
+        _ => Tier { runs: 150_000, sweep8_all_pairs: true, sweep16_all_sizes: false, sweep16: 2_000, sweep24: 16, sweep32: 0, determinism_runs: 64 },
     }
 }
 
@@ -250,6 +252,15 @@ fn sweep_jobs(menu: &[Box<dyn TyObj>], seed: u64, t: &Tier) -> Vec<SweepJob> {
                 }
             }
             continue;
+        }
+        if w == 2 && t.sweep16_all_sizes {
+            for r in 1..=65536u64 {
+                let low = min.clone();
+                let high = refint::add(&low, &refint::from_u64(r - 1, 2));
+                for e in [Entry::UniInc, Entry::SingleInc] {
+                    jobs.push(SweepJob { ty: ty.name().to_string(), low: low.clone(), high_incl: high.clone(), entry: e });
+                }
+            }
         }
         let n = match w {
             2 => t.sweep16,
@@ -504,6 +515,27 @@ fn cmd_fingerprints(args: &[String]) -> i32 {
     let to: u64 = arg(args, "--to").and_then(|s| s.parse().ok()).unwrap_or(100);
     let threads: usize = arg(args, "--threads").and_then(|s| s.parse().ok()).unwrap_or(1);
     let menu = types::menu();
+    if let Some(count) = arg(args, "--fill-focus").and_then(|s| s.parse::<usize>().ok()) {
+        // for the interpreter cross-check (Miri): the first `count` runs at or after `from` that exercise the
+        // unsafe byte view (Fill / try_fill_slice) or Standard on a small type; single-threaded, in index order
+        let mut i = from;
+        let mut done = 0;
+        while done < count && i < from + 1_000_000 {
+            let spec = gen::make_run(seed, i, &menu);
+            let ty = by_name(&menu, &spec.ty).unwrap();
+            let wanted = ty.bytes() <= 40
+                && spec.ops.len() <= 6
+                && spec.ops.iter().map(|o| o.calls.len()).sum::<usize>() <= 24
+                && spec.ops.iter().any(|o| matches!(o.kind, spec::OpKind::Fill { .. } | spec::OpKind::FillVsElem { .. }));
+            if wanted {
+                let r = exec::run(&spec, ty, false);
+                println!("{} {:016x} {} {}", i, r.fingerprint, r.draws, r.violations.len());
+                done += 1;
+            }
+            i += 1;
+        }
+        return 0;
+    }
     if args.iter().any(|a| a == "--each") {
         // one line per run, in index order, computed by `threads` workers
         let res: Mutex<Vec<(u64, u64, u64)>> = Mutex::new(Vec::new());
